@@ -1,0 +1,29 @@
+//! Verification hooks, compiled only with `--cfg replicon_verif`.
+//!
+//! Gives an external harness access to the otherwise crate-private [`LinkConditioner`].
+
+use std::time::Instant;
+
+use bevy_replicon::bytes::Bytes;
+
+use super::link_conditioner::{ConditionerConfig, LinkConditioner};
+
+/// Public wrapper around the crate-private link conditioner.
+#[derive(Default)]
+pub struct Conditioner(LinkConditioner);
+
+impl Conditioner {
+    pub fn insert(
+        &mut self,
+        config: Option<&ConditionerConfig>,
+        timestamp: Instant,
+        channel_id: u8,
+        message: Bytes,
+    ) {
+        self.0.insert(config, timestamp, channel_id, message);
+    }
+
+    pub fn pop(&mut self, now: Instant) -> Option<(u8, Bytes)> {
+        self.0.pop(now)
+    }
+}
